@@ -670,6 +670,68 @@ FORBID_UNSAFE_CRATES = ("identity_credential", "identity_did", "identity_documen
 from rulelib import subordinate  # noqa: E402
 
 
+# accessors that unwrap an invariant ↔ the validator that is supposed to establish it:
+# (accessor fn, validator fn, accessor's root term → validator's root term)
+INVARIANT_PAIRS = [
+    (CR + "credential::linked_domain_service::LinkedDomainService::domains", CR + "credential::linked_domain_service::LinkedDomainService::check_structure",
+     (("field", ("param", "self"), "service"), ("param", "service"))),
+    (CR + "credential::linked_verifiable_presentation_service::LinkedVerifiablePresentationService::verifiable_presentation_urls",
+     CR + "credential::linked_verifiable_presentation_service::LinkedVerifiablePresentationService::check_structure",
+     (("field", ("param", "self"), "0"), ("param", "service"))),
+]
+INV_OPAQUE = r"Service::(service_endpoint|type_)$|::get$|url_only_includes_origin$|Url::scheme$|::scheme$|::is_empty$"
+
+
+def _subst(t, a, b):
+    if t == a:
+        return b
+    if isinstance(t, tuple):
+        return tuple(_subst(x, a, b) for x in t)
+    return t
+
+
+def check_accessor_invariants(F, r2):
+    """By abstract evaluation: the conditions under which an accessor panics (as a conjunction of decisions about the wrapped value)
+    are each contradicted on every accepting path of the validator — the validator looked at the same thing and found the opposite."""
+    import sym as SY
+    import symrules as SR
+    for acc, val, (ra, rv) in INVARIANT_PAIRS:
+        if not (r2.anchor(F.hir(acc), acc) and r2.anchor(F.hir(val), val)):
+            continue
+        try:
+            ap = SY.Evaluator(F, opaque=INV_OPAQUE, inline_depth=3).explore(acc)
+            vp = SY.Evaluator(F, opaque=INV_OPAQUE, inline_depth=3).explore(val)
+        except (SY.Abort, SY.TooManyPaths) as e:
+            r2.fail((acc, "not-evaluable"), "%s / %s could not be evaluated: %s" % (short(acc), short(val), e))
+            continue
+        panics = [q for q in ap if isinstance(q.ret, SY.V) and q.ret.name == "Panic"]
+        oks = [q for q in vp if q.complete and SR.is_success(q.ret) and not SR.is_failure(q.ret)]
+        if [q for q in vp if not q.complete]:
+            r2.fail((val, "not-evaluable"), "%s: a path could not be evaluated to the end" % short(val))
+        good = bool(oks)
+        for pq in panics:
+            conj = [(_subst(a, ra, rv), c) for (a, c, _, _) in pq.decisions]
+            for vq in oks:
+                vdec = {a: c for (a, c, _, _) in vq.decisions}
+                contradicted = False
+                for a, c in conj:
+                    if a in vdec and vdec[a] != c:
+                        contradicted = True
+                    # variant atoms list their remaining options: compare by (kind, term)
+                    for a2, c2 in vdec.items():
+                        if a2[0] == a[0] == "variant" and a2[1] == a[1] and c2 != c and "*" not in (c, c2):
+                            contradicted = True
+                    v2 = vq.variant.get(a[1]) if a[0] == "variant" else None
+                    if isinstance(v2, str) and isinstance(c, str) and c != "*" and v2 != c:
+                        contradicted = True
+                if not contradicted:
+                    good = False
+                    r2.fail((acc, "invariant-not-established"), "%s panics when %s, and %s accepts a value without excluding that (accepting path: %s)" % (
+                        short(acc), " ∧ ".join("%s=%s" % (SY.fmt_atom(a), c) for a, c in conj) or "(always)", short(val), vq.describe()[:160] or "(unconditional)"))
+                    break
+        r2.site("%s: each of its %d panic condition(s) is excluded on all %d accepting path(s) of %s: %s" % (short(acc), len(panics), len(oks), short(val), good))
+
+
 def check_gates(F, R):
     r2 = R.rule("C05-R2", "T1", "types whose accessors unwrap an invariant are built only behind their validating constructor: private fields, no field writes, "
                 "serde through try_from, every construction after the validation call succeeded")
@@ -726,6 +788,7 @@ def check_gates(F, R):
                 else:
                     r2.fail((adt, "ungated-construction", fn), "%s is constructed in %s" % (short(adt), fn))
         ok[gname] = len(r2.fails) == fails0
+    check_accessor_invariants(F, r2)
     r2.floor(8)
     return ok
 
@@ -755,7 +818,80 @@ def check_unsafe(F, R):
     r3.floor(8 + 5)
 
 
+RECURSIVE_REVIEWED = {
+    CR + "sd_jwt_vc::metadata::vc_type::validate_credential_impl":
+        "follows issuer-controlled `extends` links: terminates because every type visited is added to the list handed down and a type already on it is rejected",
+}
+
+
+def check_recursion(F, R):
+    """Recursion over externally supplied data can exhaust the stack (an abort, not an error): every self-reachable function of the
+    workspace is listed with its termination argument, and the one there is has its visited-list discipline decided on its table."""
+    import sym as SY
+    import symrules as SR
+    r4 = R.rule("C05-R4", "T1+T8", "the workspace's call graph has no recursive function besides the reviewed ones; validate_credential_impl rejects a type already on its visited list and hands the callee a list that contains everything it was given plus the current type")
+    idx = F.call_index()
+    base = lambda p_: re.sub(r"(::\{closure#\d+\})+$", "", p_)  # noqa: E731
+    edges = {}
+    for callee, lst in idx.items():
+        for (p_, bi, t) in lst:
+            edges.setdefault(base(p_), set()).add(callee)
+    ws = set(F.fns.keys())
+
+    def self_reachable(f):
+        seen, st = set(), [f]
+        while st:
+            x = st.pop()
+            for y in edges.get(x, ()):
+                if y == f:
+                    return True
+                if y in ws and y not in seen:
+                    seen.add(y)
+                    st.append(y)
+        return False
+    rec = [f for f in sorted(ws) if f in edges and not any(f.startswith(p_) for p_, _ in EXCLUDED_MODULES) and self_reachable(f)]
+    r4.site("recursive functions in the workspace call graph: %s" % [short(f) for f in rec])
+    for f in rec:
+        if f in RECURSIVE_REVIEWED:
+            r4.exception(f, "checked", RECURSIVE_REVIEWED[f])
+        else:
+            r4.fail((f, "unreviewed-recursion"), "%s is (mutually) recursive and has no reviewed termination argument: recursion driven by external data can overflow the stack" % short(f))
+    fn = CR + "sd_jwt_vc::metadata::vc_type::validate_credential_impl"
+    if fn in rec and r4.anchor(F.hir(fn), fn):
+        P_ = lambda x: SY.Sym(("param", x))  # noqa: E731
+        ev = SY.Evaluator(F, opaque=r"Resolver::resolve$|validate_credential$|validate_credential_with_schema$|from_value$|TypeMetadata::extends$", inline_depth=3, concrete_vec=True)
+        try:
+            paths = ev.explore(fn, args=lambda: [P_("cur"), P_("credential"), P_("resolver"), [P_("t0")]])
+        except (SY.Abort, SY.TooManyPaths) as e:
+            paths = []
+            r4.fail((fn, "not-evaluable"), "validate_credential_impl could not be evaluated: %s" % e)
+        n_rec = 0
+        cyc = False
+        for q in paths:
+            if not q.complete:
+                r4.fail((fn, "not-evaluable"), "validate_credential_impl: a path could not be evaluated to the end (%s)" % q.note)
+                continue
+            same = [c for (a, c, _, _) in q.decisions if a[0] == "eq" and {a[1], a[2]} == {("param", "cur"), ("param", "t0")}]
+            rc = [e for e in q.events if e.kind == "call" and (e.fn or "") == fn]
+            if same == [True]:
+                cyc = True
+                r4.require(not rc and not q.calls(r"Resolver::resolve$") and "Err" in str(q.ret), (fn, "cycle-rejected"), "a type that is already on the visited list is not rejected before anything is resolved")
+                continue
+            for e in rc:
+                n_rec += 1
+                lst = e.args[3] if len(e.args) > 3 else None
+                names = [SY.term(x) for x in lst] if isinstance(lst, list) else None
+                ok = same == [False] and names is not None and ("param", "t0") in names and ("param", "cur") in names
+                r4.require(ok, (fn, "visited-accumulates"), "the recursive call is handed the visited list %s: it must contain every type it was given and the current one, after the current type was checked against it (otherwise a loop of two or more types is followed forever)" % (
+                    [SY.fmt(t_) for t_ in names] if names is not None else "(not a list built from the received one)"))
+        r4.require(cyc or not paths, (fn, "cycle-rejected"), "validate_credential_impl never compares the current type with the visited list")
+        r4.site("validate_credential_impl: cycle rejected; %d recursive call(s) each handed visited ∪ {current}" % n_rec)
+        r4.require(n_rec >= 1 or not paths, (fn, "visited-accumulates"), "no recursive call was found on the evaluated paths")
+    r4.floor(2)
+
+
 def run(F, R, tier):
+    check_recursion(F, R)
     r1 = R.rule("C05-R1", "T8", "every panic-capable construct (Assert terminator, diverging call, panic-API call, known-panicking dependency call) of the library "
                 "crates is discharged: CONST | INTERVAL | TOTAL | GUARD | GATE | RULE | REVIEWED")
     sites, excluded = inventory(F)
@@ -806,18 +942,30 @@ def run(F, R, tier):
     for (fn, what), ss in sorted(groups.items()):
         if (fn, what) in table:
             continue
-        owners = {tfn for (tfn, twhat), ent_ in table.items() if twhat == what and ent_[1] in ("REVIEWED", "RULE")}
+        owners = {tfn for (tfn, twhat), ent_ in table.items() if twhat == what and ent_[1] in ("REVIEWED", "RULE", "OPEN")}
         serves = L.private_helper_of(F, fn, owners)
         if not serves:
             continue
         budget = sum(table[(o, what)][0] - len(groups.get((o, what), [])) for o in serves)
         if len(ss) <= budget:
-            o0 = sorted(serves)[0]
+            closed = sorted(o for o in serves if table[(o, what)][1] != "OPEN") or sorted(serves)
+            o0 = closed[0]
             moved[(fn, what)] = (o0, table[(o0, what)], sorted(serves))
     for (fn, what), ss in sorted(groups.items()):
         if (fn, what) in moved:
             tfn, (n_, cls_, arg_, reason_), serves_ = moved[(fn, what)]
             okm = True
+            # an owner whose entry is an open (known) defect keeps it: the construct still fails on its behalf, now inside the helper
+            for o in serves_:
+                if table[(o, what)][1] == "OPEN":
+                    r1.fail((o, what), "%s: %s" % (short(o), KNOWN_OPEN.get((o, what), "confirmed panic")), ss[0].sp)
+            if cls_ == "OPEN":
+                for s_ in ss:
+                    s_.cls = "OPEN"
+                    counts["OPEN"] += 1
+                for o in serves_:
+                    used.add((o, what))
+                continue
             if cls_ == "RULE":
                 for rid in arg_:
                     res = subordinate(F, rid.split("-")[0], tier)
